@@ -29,7 +29,7 @@ META = {
     'components_real': ['MemoryRecording.get_data / pickle_copy', 'TapeRecorder record + play + recorded-output extraction', 'all three cassettes'],
     'components_stub': ['S3 bucket', 'service and environment'],
     'budgets': {'quick': {'seconds': 25}, 'thorough': {'seconds': 360}},
-    'required_probes': {'thorough': ['copy_failed_in_an_earlier_operation', 'concurrent_reads', 'value_class_with_copy_hooks', 'mutated_get_data', 'mutated_item_access', 'mutated_metadata', 'mutated_recorded_output', 'service_mutated_value',
+    'required_probes': {'thorough': ['same_operation_ran_before_with_failing_copies', 'copy_failed_in_an_earlier_operation', 'concurrent_reads', 'value_class_with_copy_hooks', 'mutated_get_data', 'mutated_item_access', 'mutated_metadata', 'mutated_recorded_output', 'service_mutated_value',
                                      'copy_on_interception', 'mutated_playback_output', 'exception_with_mutable_payload']},
 }
 
@@ -261,6 +261,16 @@ def _run(tape, clock):
         from props.c09 import real_thread_factory
         svc = R.Service(spec_rec, env, recorder, thread_factory=real_thread_factory)
         svc.mut_tape = tape
+        if copy_on and tape.draw(3) == 2:
+            # the very same operation ran before on this recorder and every copy-on-interception failed in that run (values
+            # that encode but cannot be restored); this run's values are copied all the same
+            run.probe('same_operation_ran_before_with_failing_copies')
+            env.copy_fails_everywhere = True
+            svc.mut_tape = None
+            R.call_outcome(svc.invoke)
+            env.copy_fails_everywhere = False
+            svc.mut_tape = tape
+            svc.checks, svc.last_result, svc.last_raised = [], None, None
         out = R.call_outcome(svc.invoke)
         rec_id = [c[1] for c in spy.calls if c[0] == 'create'][-1]
         if ('save', rec_id) not in spy.calls:
